@@ -44,7 +44,11 @@ TV_One   == {<<5, 5, 5>>}
 TV_Long  == {<<3600, 3600, 3600>>}
 
 AllClasses == {"answer", "cname", "nodata", "nxdomain", "delegation", "weird",
-               "servfail", "tc", "err", "cnamenodata"}
+               "servfail", "tc", "err", "cnamenodata",
+               \* authority-section orderings and mixtures (RFC 2308 type 1 / 2):
+               \* the class is decided by *whether* a SOA is there, not by
+               \* which of SOA / NS comes first
+               "nodata_soa_ns", "nodata_ns_soa", "nx_ns_soa"}
 FlagClasses == {"answer", "nodata", "err"}
 
 (* 0.5 s, 1 s, 4 s, 5.5 s (just past TTL 5), 6 s, 3601 s *)
@@ -100,6 +104,15 @@ Mk(q, cls, tv, adb) ==
              ns |-> <<RR("example", "SOA", tv[2], 7)>> \o Sig("example", tv[2], 8)
                     \o Nsec(q.name, tv[3]),
              ar |-> Opt]
+       [] cls \in {"nodata_soa_ns", "nodata_ns_soa", "nx_ns_soa"} ->
+            LET soa == <<RR("example", "SOA", tv[2], 7)>> \o Sig("example", tv[2], 8)
+                nsr == <<RR("example", "NS", tv[2], 1), RR("example", "NS", tv[2], 2)>>
+                       \o Sig("example", tv[2], 2)
+            IN [hdr |-> H(IF cls = "nx_ns_soa" THEN "NXDOMAIN" ELSE "NOERROR", TRUE, FALSE),
+                qd |-> qd, an |-> <<>>,
+                ns |-> (IF cls = "nodata_soa_ns" THEN soa \o nsr ELSE nsr \o soa)
+                       \o Nsec(q.name, tv[3]),
+                ar |-> <<RR("ns1.example", "A", tv[3], 9)>> \o Opt]
        [] cls = "nxdomain" ->
             [hdr |-> H("NXDOMAIN", TRUE, FALSE), qd |-> qd, an |-> <<>>,
              ns |-> <<RR("example", "SOA", tv[2], 7)>> \o Sig("example", tv[2], 8)
